@@ -44,6 +44,10 @@ type Info struct {
 	Assumptions []string
 	// CrashIsViolation: a worker death / hang on a case violates this property.
 	CrashIsViolation bool
+	// SkipConfirm: failures are not re-confirmed by in-process replays (used
+	// where the observation depends on process-wide library state that only
+	// the first use in a process exhibits, e.g. a lazily filled global cache).
+	SkipConfirm bool
 }
 
 // Check is implemented once per property.
@@ -61,6 +65,13 @@ type Check interface {
 // simplifications of a case, simplest first.
 type Reducer interface {
 	Simplify(data json.RawMessage) []json.RawMessage
+}
+
+// PostRunner is optionally implemented: PostRun runs once in the supervisor
+// after all units (e.g. a supporting pass with another binary). Notes are
+// merged into the evidence coverage.
+type PostRunner interface {
+	PostRun(t Tier) ([]Failure, map[string]any)
 }
 
 var registry = map[string]Check{}
